@@ -9,3 +9,9 @@ package types
 //@   inline
 //@ func StringValue
 //@   inline
+
+// the error values of the core report their code
+//@ func (*ConditionalCheckFailedException).Code
+//@   ensures result == "ConditionalCheckFailedException"
+//@ func baseError.Code
+//@   inline
